@@ -2,6 +2,7 @@ import Zrnt.Beacon.Impl.Epoch
 import Proofs.Lemmas.C02Registry
 import Proofs.Lemmas.C02Altair
 import Proofs.Lemmas.C02Phase0
+import Proofs.Lemmas.C02WF
 import Zrnt.Beacon.Impl.Final
 /-!
 # C02 — slot, epoch and fork-upgrade processing equals the consensus spec
@@ -473,5 +474,79 @@ theorem targetStakes_phase0_eq (cfg : Config) (flats : List Validator) (prevEpoc
 example : ∃ (flats : List Validator) (balances : List Nat) (atts : List ResolvedAtt),
     flats ≠ [] ∧ atts ≠ [] ∧ balances.length = flats.length :=
   ⟨[default, default], [1, 2], [⟨[0, 1], 1, 0, true, false⟩], by simp, by simp, rfl⟩
+
+/-! ## The reachable-registry invariant and the snapshot for the slashings step -/
+
+/-- `WF_preserved_epoch`: the registry invariant `WF` (a slashed validator has an exit epoch; exit ≤ withdrawable;
+activation ≤ exit) is preserved by everything the epoch transition does to the registry: both loops of
+`process_registry_updates` and `process_effective_balance_updates` (the other sub-transitions do not write
+validators). `hcae`: the activation epoch assigned this epoch is representable. -/
+theorem WF_preserved_epoch (cfg : Config) (cur fin limit : Nat) (vals : List Validator) (balances : List Nat)
+    (hwf : Lemmas.WF vals) (hcae : compute_activation_exit_epoch cfg cur ≤ FAR_FUTURE_EPOCH) :
+    Lemmas.WF (registry_activations_pure cfg cur fin limit (registry_eligibility_and_ejections_pure cfg cur vals)) ∧
+    Lemmas.WF (process_effective_balance_updates_pure cfg
+      (registry_activations_pure cfg cur fin limit (registry_eligibility_and_ejections_pure cfg cur vals)) balances) := by
+  have h1 := Lemmas.WF_activations cfg cur fin limit _ (Lemmas.WF_first_loop cfg cur vals hwf) hcae
+  exact ⟨h1, Lemmas.WF_effective_balance cfg _ balances h1⟩
+
+/-- non-vacuity: a registry satisfying `WF` with an active, a slashed-and-exited and a pending validator -/
+example : Lemmas.WF [⟨default, default, 32, false, 0, 0, FAR_FUTURE_EPOCH, FAR_FUTURE_EPOCH⟩,
+    ⟨default, default, 32, true, 0, 0, 5, 40⟩,
+    ⟨default, default, 32, false, FAR_FUTURE_EPOCH, FAR_FUTURE_EPOCH, FAR_FUTURE_EPOCH, FAR_FUTURE_EPOCH⟩] := by
+  intro v hv
+  simp only [List.mem_cons, List.not_mem_nil, or_false] at hv
+  rcases hv with rfl | rfl | rfl <;> (refine ⟨?_, ?_, ?_⟩ <;> simp [FAR_FUTURE_EPOCH])
+
+/-- `flat_snapshot_sound` (slashings): under `WF`, the registry update changes nothing that the slashings step reads —
+`slashed`, `effective_balance`, the withdrawable epoch of SLASHED validators (an ejection only touches validators
+without an exit epoch, and those are not slashed), and who is active in the current epoch. -/
+theorem flat_snapshot_sound_slashings (cfg : Config) (cur fin limit : Nat) (vals : List Validator)
+    (hwf : Lemmas.WF vals) (hcur : cur < FAR_FUTURE_EPOCH) :
+    (registry_activations_pure cfg cur fin limit (registry_eligibility_and_ejections_pure cfg cur vals)).map Lemmas.slashKey =
+      vals.map Lemmas.slashKey ∧
+    (registry_activations_pure cfg cur fin limit (registry_eligibility_and_ejections_pure cfg cur vals)).map
+        (is_active_validator · cur) = vals.map (is_active_validator · cur) := by
+  constructor
+  · rw [Lemmas.registry_activations_map_same Lemmas.slashKey cfg cur fin limit _ (fun _ _ => rfl)]
+    exact Lemmas.first_loop_slashKey cfg cur vals hwf
+  · rw [Lemmas.activations_active_same cfg cur fin limit _ hcur]
+    exact Lemmas.first_loop_active_same cfg cur vals
+
+/-- `slashings_snapshot_eq`: `phase0.ProcessEpochSlashings` reading the START-of-epoch snapshot (`flats = vals`) equals the
+spec's `process_slashings` on the registry as it is AFTER `process_registry_updates`, with the total active balance of
+that updated registry — for every `WF` registry. (Without `WF` it is false: a slashed validator without an exit epoch
+would be ejected, its withdrawable epoch would change and only the spec would see that.) -/
+theorem slashings_snapshot_eq (cfg : Config) (fork : Fork) (cur fin limit : Nat) (vals : List Validator)
+    (slashings balances : List Nat) (hwf : Lemmas.WF vals) (hcur : cur < FAR_FUTURE_EPOCH)
+    (hlen : vals.length ≤ balances.length) :
+    Impl.processEpochSlashings cfg fork cur vals slashings balances =
+      process_slashings_pure cfg fork cur
+          (total_active_balance_of cfg
+            (registry_activations_pure cfg cur fin limit (registry_eligibility_and_ejections_pure cfg cur vals)) cur)
+          slashings
+          (registry_activations_pure cfg cur fin limit (registry_eligibility_and_ejections_pure cfg cur vals)) balances
+        ++ balances.drop vals.length := by
+  obtain ⟨hk, ha⟩ := flat_snapshot_sound_slashings cfg cur fin limit vals hwf hcur
+  rw [slashings_eq cfg fork cur slashings vals balances hlen]
+  congr 1
+  -- same total
+  have htot : Impl.totalActiveStake cfg vals cur = total_active_balance_of cfg
+      (registry_activations_pure cfg cur fin limit (registry_eligibility_and_ejections_pure cfg cur vals)) cur := by
+    rw [totalActiveStake_eq, ← Lemmas.total_active_balance_of_eq]
+    apply Lemmas.total_active_congr
+    -- pair up activity and effective balance
+    have he : (registry_activations_pure cfg cur fin limit (registry_eligibility_and_ejections_pure cfg cur vals)).map
+        (·.effective_balance) = vals.map (·.effective_balance) := by
+      have := congrArg (List.map (fun (k : Bool × Nat × Nat) => k.2.1)) hk
+      simpa [List.map_map, Function.comp_def, Lemmas.slashKey] using this
+    apply List.ext_getElem?
+    intro i
+    have h1 := congrArg (fun l => l[i]?) ha
+    have h2 := congrArg (fun l => l[i]?) he
+    simp only [List.getElem?_map] at h1 h2 ⊢
+    cases hx : (registry_activations_pure cfg cur fin limit (registry_eligibility_and_ejections_pure cfg cur vals))[i]? <;>
+      cases hy : vals[i]? <;> simp_all
+  rw [htot]
+  exact (Lemmas.slashings_pure_congr cfg fork cur _ slashings _ _ balances hk).symm
 
 end Zrnt.Proofs.C02
